@@ -9,6 +9,9 @@ PROPS["C05"] = dict(
         job("cbinding-asan", "c05_asm", flavour="asan", cases={Q: 100, T: 2000}, shards=4, mode="cbinding",
             args={"exact": 1}),
         job("firmware", "c05_asm", cases={Q: 4, T: 4}, shards=1, mode="firmware"),
+        # history independence: call histories in forked children of a pristine parent (first call of a process,
+        # repeats, one-argument changes, colliding opcodes), each call compared with itself in a fresh thread
+        job("purity", "purity", cases={Q: 1500, T: 60000}, shards=16, mode="purity", args={"prop": "C05"}),
     ],
     rule="roundtrip: every first word 0..65535: GetTokenList -> (skip '[ERROR]' texts, counted) -> Parser::Parse -> status vs "
          "NeedExpansion; if the parser returns another opcode: its token lists for second words {0,1,0x7FFF,0x8000,0xFFFF}+N random, "
@@ -19,15 +22,17 @@ PROPS["C05"] = dict(
          "whose every byte outside [dst,dst+dstlen) is a canary. firmware: makedsp1 output vs shipped cdc.bin byte for byte, "
          "dsp1_reader listing vs independent container reading vs source lines. distinct_nontrivial = distinct handler names whose "
          "text was re-assembled and compared + distinct text lengths pushed through the C binding + firmware files assembled "
-         "identically / listed identically",
+         "identically / listed identically + (entry point, relation to an earlier call) pairs of the purity histories. purity: 16-40 call histories over "
+         "NeedExpansion/GetTokenList/Do/C binding/Decode/Parse in a forked child of a parent that never called them; every call's result must equal the "
+         "same call repeated later in reverse order and the same call as the first call of a new thread; Do == joined tokens and C binding == Do on the fresh-thread results",
     floors={Q: {"renderable": 60000, "parse_ok": 60000, "text_groups": 60000, "text_groups_multi": 20, "group_members_compared": 50,
                 "alias_exec_compared": 400, "cbinding_calls": 500000, "text_lengths": 50, "truncating_calls": 400000,
                 "null_dst_calls": 50000, "exact_alloc_calls": 5000, "fw_binaries_identical": 4, "fw_instructions_compared": 200,
-                "fw_source_lines": 400, "fw_second_words_compared": 40},
+                "fw_source_lines": 400, "fw_second_words_compared": 40, "determinism_comparisons": 500000, "rel_cfg-arp-only": 10000, "rel_repeat": 10000},
             T: {"renderable": 60000, "parse_ok": 60000, "text_groups": 60000, "text_groups_multi": 20, "group_members_compared": 50,
                 "alias_exec_compared": 3000, "cbinding_calls": 10000000, "text_lengths": 50, "truncating_calls": 8000000,
                 "null_dst_calls": 1000000, "exact_alloc_calls": 100000, "fw_binaries_identical": 4, "fw_instructions_compared": 200,
-                "fw_source_lines": 400, "fw_second_words_compared": 40}},
+                "fw_source_lines": 400, "fw_second_words_compared": 40, "determinism_comparisons": 20000000, "rel_cfg-arp-only": 400000, "rel_repeat": 400000}},
     ready=True,
     crash_is_violation=True,
     exhaustive=True,
